@@ -367,6 +367,10 @@ func (c *pkgCtx) rewriteMain(f *ast.File) {
 			return &ast.CallExpr{Fun: ast.NewIdent("zzVerifRun"), Args: []ast.Expr{sel.X}}
 		})
 		if found == 0 {
+			if os.Getenv("DST_SELFTEST_NOMAIN") != "" {
+				fd.Name = ast.NewIdent("main") // instrumenter self-test: a plain program without an engine
+				return
+			}
 			fail("%s: main() has no (*gin.Engine).Run call to hand over to the simulator", c.relFile)
 		}
 		return
